@@ -388,18 +388,18 @@ def run_worker(args):
 def correspondence(res):
     from props import c02
     W = 14
-    n = 420 if res.tier == "quick" else 8000
+    n = 420 if res.tier == "quick" else 3360
     terms, infos = c02.parallel(res, buffer_worker, [(res.seed * 1000 + w, max(1, n // W)) for w in range(W)])
     codes = common.run_case_codes("C20", "buf", HEADER, terms, "c20_buffer", chunk=70, ctype=BT)
     bad = [i for i, v in enumerate(codes) if v != 1]
     ok = len(codes) - len(bad)
     # the race: 1 s of waiting per case inside the implementation (wait_for_completion_time)
-    n1 = 84 if res.tier == "quick" else 1400
+    n1 = 84 if res.tier == "quick" else 420
     terms1, infos1 = c02.parallel(res, race_worker, [(res.seed * 1000 + 100 + w, max(1, n1 // W)) for w in range(W)])
     codes1 = common.run_case_codes("C20", "race", HEADER, terms1, "c20_choose", chunk=60, ctype=XT)
     race_bad = [i for i, v in enumerate(codes1) if v != 1]
     ok += len(codes1) - len(race_bad)
-    n2 = 56 if res.tier == "quick" else 1500
+    n2 = 56 if res.tier == "quick" else 336
     terms2, infos2 = c02.parallel(res, run_worker, [(res.seed * 1000 + 300 + w, max(1, n2 // W)) for w in range(W)])
     idx = [i for i, t in enumerate(terms2) if t is not None]
     codes2 = common.run_case_codes("C20", "run", HEADER, [terms2[i] for i in idx], "c20_run", chunk=40, ctype=RT)
